@@ -197,9 +197,9 @@ def main(argv=None):
                            note="a callable registered in NumpyBackend disagrees with the primitive contract the proofs rely on"), f, indent=1)
         print(f"VIOLATION property={pid} replay={os.path.relpath(path, ROOT)} obligation=A3/primitive-contracts :: {prim_fail[0]}")
         rc = 1
-    if rc == 0:
-        for ob, v in undecided:
-            print(f"UNDECIDED property={pid} obligation={ob.name} :: [{v['backend']}] {v['detail'][:300]}")
+    for ob, v in undecided:
+        print(f"UNDECIDED property={pid} obligation={ob.name} :: [{v['backend']}] {v['detail'][:300]}")
+        if rc == 0:
             rc = 2
     for ob, v in engine_bugs:
         print(f"CHECKER-ERROR property={pid} engine soundness monitor tripped on {ob.name}: {v['detail'][:300]}")
